@@ -215,8 +215,12 @@ func (p *Program) LookupField(pkgRel, typeName, field string) *types.Var {
 	}
 	for i := 0; i < st.NumFields(); i++ {
 		if st.Field(i).Name() == field {
+			p.recordFieldAnchor(pkgRel, typeName, field, st, i)
 			return st.Field(i)
 		}
+	}
+	if alt := p.resolveRenamedField(pkgRel, typeName, field, st); alt != nil {
+		return alt
 	}
 	panic(anchorError(pkgRel + "." + typeName + "." + field))
 }
